@@ -168,6 +168,8 @@ def summarise_predicates(facts):
         # const limb-loop form: compares limbs of self with limbs of MODULUS with Lt / Gt
         if fn.d.get("const") and not cmps:
             res = limb_loop_predicate(fn)
+            if res is None:
+                res = delegated_predicate(facts, fn)
             if res is not None:
                 info[fn.id] = ("loop", res, True, fn)
                 if None not in res.values():
@@ -175,8 +177,49 @@ def summarise_predicates(facts):
     return preds, info
 
 
-def limb_loop_predicate(fn):
-    """const fn(&self)->bool that walks limbs from the most significant one comparing with MODULUS.
+def delegated_predicate(facts, fn):
+    """`!self.0.const_geq(&MODULUS)` / `self.0.const_geq(&MODULUS)`: a predicate that hands (value, MODULUS) to a two-operand
+    limb-loop comparison of the same crate; the table is the callee's, negated when the result is negated"""
+    calls = [(bb, t) for bb, t in fn.calls()]
+    if len(calls) != 1:
+        return None
+    bb, t = calls[0]
+    callee = None
+    for key in (t["f"].get("res"), t["f"].get("path")):
+        c = facts.get(key, fn.unit) if key else None
+        if c is not None and c.kind != "Closure" and c.crate == fn.crate:
+            callee = c
+    if callee is None or len(t["args"]) != 2 or callee.local_ty(0) != "bool":
+        return None
+    dep = DF.Dep(fn)
+    l0, l1 = op_local(t["args"][0]), op_local(t["args"][1])
+    self_first = l0 is not None and 1 in dep.args_in_slice([l0]) and not any(mentions(k) for k in dep.consts_in_slice([l0]))
+    mod_second = ("k" in t["args"][1] and mentions(t["args"][1]["k"])) or (l1 is not None and any(mentions(k) for k in dep.consts_in_slice([l1])))
+    if not (self_first and mod_second):
+        return None
+    tb = limb_loop_predicate(callee, other_arg=2)
+    if tb is None or None in tb.values():
+        return None
+    # is the returned value the call's result or its negation?
+    d = place_parts(t["d"])[0]
+    neg = None
+    if d == 0:
+        neg = False
+    for bi, si, st_ in fn.stmts():
+        if st_.get("d") == 0 and st_.get("r"):
+            r = st_["r"]
+            if r["k"] == "un" and r.get("op") == "Not" and op_local(r["o"]) == d:
+                neg = True
+            elif r["k"] == "use" and op_local(r["o"]) == d:
+                neg = False
+    if neg is None:
+        return None
+    return {k: (not v if neg else v) for k, v in tb.items()}
+
+
+def limb_loop_predicate(fn, other_arg=None):
+    """const fn(&self)->bool that walks limbs from the most significant one comparing with MODULUS (other_arg=None) or
+    with the limbs of parameter `other_arg` (BigInt::const_geq(&self, &other)).
     Returns {'<': b, '=': b, '>': b} read off the constant returns, or None if not of that shape."""
     dep = DF.Dep(fn)
     cd = DF.control_deps(fn)
@@ -202,8 +245,13 @@ def limb_loop_predicate(fn):
             ca = dep.consts_in_slice([la])
             cb = dep.consts_in_slice([lb])
             a_self = 1 in sa
-            b_mod = any(mentions(k) for k in cb)
-            a_mod = any(mentions(k) for k in ca)
+            if other_arg is not None:
+                sb = dep.slice([lb])
+                b_mod = other_arg in sb and 1 not in dep.args_in_slice([lb])
+                a_mod = other_arg in dep.args_in_slice([la])
+            else:
+                b_mod = any(mentions(k) for k in cb)
+                a_mod = any(mentions(k) for k in ca)
             if a_self and b_mod and not a_mod:
                 has_mod = True
                 true_succ = t["else"]
@@ -760,6 +808,25 @@ def check_batchinv(res, facts):
                         # does the written pointer derive from the slice argument?
                         if 1 in dep.args_in_slice([l]):
                             stores.append((bi, src, 2 in dep.args_in_slice([src])))
+        # write-backs performed by closures (`v.iter_mut().zip(..).for_each(|(f, s)| { .. *f = .. })`): the stored value,
+        # expressed in the enclosing function's terms, must mention coeff
+        def mentions_coeff(t):
+            if t == ("arg", 2, ()):
+                return True
+            return isinstance(t, tuple) and any(mentions_coeff(x) for x in t)
+        for c in facts.fns(unit=unit, crate="ark_ff"):
+            if c.kind != "Closure" or not c.id.startswith(f.id + "::{closure"):
+                continue
+            cdep = DF.Dep(c)
+            for bi, si, st_ in c.stmts():
+                if "d" in st_:
+                    l, projs = place_parts(st_["d"])
+                    if projs and projs[0] == "*" and st_["r"]["k"] == "use" and any(a >= 2 for a in cdep.args_in_slice([l])):
+                        src = op_local(st_["r"]["o"])
+                        if src is None:
+                            continue
+                        term = DF.lift_captures(facts, c, DF.expr(c, st_["r"]["o"], depth=30))
+                        stores.append((("closure", bi), src, mentions_coeff(term)))
         if not stores:
             rule.undecided(key, "no write-back into the slice found", f.loc)
         elif all(ok for _, _, ok in stores):
